@@ -341,6 +341,10 @@ class Interp(Ops, Builtins, DynOps):
             return self.ev(e.body, fr)
         return self.ev(e.orelse, fr)
 
+    def ev_Slice(self, e, fr):
+        c = lambda x: None if x is None else self.ev(x, fr).const
+        return VOpaque("slice", data={"lo": c(e.lower), "hi": c(e.upper), "step": c(e.step)})
+
     def ev_Lambda(self, e, fr):
         return VLambda(e, fr, fr.module)
 
